@@ -120,3 +120,75 @@ def c11(tier, seed):
     except pl.Machinery as e:
         print('MACHINERY FAILURE C11: %s' % e)
         return 2
+
+
+# ----------------------------------------------------------------------------------------
+# C12
+
+KIND_NAMES = {'type': 'WrongPyType', 'alt': 'UnknownAlternative', 'enum': 'UnknownEnumName',
+              'missing': 'MissingMandatory', 'con': 'ConstraintViolation'}
+
+
+def c12(tier, seed):
+    run = pl.Run('C12', tier, seed)
+    try:
+        stages_off = '  Stages = FALSE\n'
+        if tier == 'quick':
+            plan = [('bfs', 1, False, ['A']), ('sim', 'num=10', 4, False, ['E'])]
+            mc = (0, False)
+        else:
+            plan = [('bfs', 2, False, ['A', 'E']), ('bfs', 1, True, ['I']), ('sim', 'num=300', 6, True, ['E', 'I', 'A'])]
+            mc = (1, False)
+        # (M) the transition system itself: every reachable corrupt state is applicable and its expected
+        # path leads to the corrupted component (small constants, exhaustive)
+        cfg = gen_cfg('CorSpec', 'CorruptStateOk', mc[0], mc[1], ['A'], '  Stages = TRUE\n')
+        _, res = pl.tlc_generate(run, 'Corrupt', cfg, 'mc.ndjson', workers=8,
+                                 what='Corrupt model check (PickValue, CorruptAt) depth<=%d' % mc[0])
+        run.notes['model_check_states'] = res['distinct']
+        cases = generate(run, 'Corrupt', 'CorSpec', 'CorEmit', plan, 'k', extra=stages_off) + witness_cases('C12')
+        for c in cases:
+            for k in c['cors']:
+                k.pop('exp', None)      # the expectation is recomputed by the trace specification
+        cpath = run.path('cases.ndjson')
+        pl.write_cases(cases, cpath)
+        shards = pl.drive(run, 'drive_corrupt.py', cpath, 'trace',
+                          ['--codecs', ','.join(ALL_CODECS), '--numerics', '0,1'])
+        reports = pl.validate(run, 'Trace_Corrupt', TRACE_CFG, shards, what='Trace_Corrupt')
+        idx = pl.load_trace_index(shards)
+        pl.classify(run, reports, idx, 'C12')
+        kinds = {}
+        for cid, line in idx.items():
+            th = type_hash(line)
+            for o in line['obs']:
+                if 'enc' not in o:
+                    continue
+                k = line['cors'][o['ci'] - 1]
+                kn = KIND_NAMES[k['kind']]
+                kinds[kn] = kinds.get(kn, 0) + len(o['codecs'])
+                posk = '.'.join(s['n'] if s['s'] != 'i' else '*' for s in k['pos'])
+                for cd in o['codecs']:
+                    run.signatures.add((th, posk, k['kind'], k['tau'], k['member'], k['nb'], cd))
+            if len(run.samples) < 5 and line['obs']:
+                o = line['obs'][len(line['obs']) // 2]
+                k = line['cors'][o['ci'] - 1]
+                run.samples.append({'cid': cid, 'asn1_top': line['env']['types'][line['top']],
+                                    'value': line['vals'][k['vi'] - 1],
+                                    'patch': {x: k[x] for x in ('kind', 'pos', 'tau', 'member', 'nb')},
+                                    'codecs': o['codecs'], 'outcome': o['enc']})
+        run.notes['cases'] = len(cases)
+        run.notes['corruptions'] = sum(len(c['cors']) for c in cases)
+        run.notes['encode_calls_per_kind'] = kinds
+        run.notes['codecs'] = ALL_CODECS
+        run.assumptions = [
+            'TLC and SANY are correct; CorruptRules!Accepts is type_checker.py\'s isinstance table and Expected the path rule of the property',
+            'harness/drive_corrupt.py applies a patch instruction literally (TAU table: one Python object per type tag)',
+            'the message prefix recorded by the driver is str(e) up to the first ": "',
+        ]
+        return pl.finish(run, rule=(
+            'cases are Corrupt states (TypeGen productions over leaf types of every kind, BFS + simulation, seed %d); per case '
+            'every node of every well-formed boundary value x every applicable corruption kind / rejected Python type, '
+            'de-duplicated per (type position, kind); an observation is one encode(check_types, check_constraints) per '
+            '(corruption, codec, numeric_enums); distinct non-trivial = distinct (type, type position, kind, tau, codec)' % seed))
+    except pl.Machinery as e:
+        print('MACHINERY FAILURE C12: %s' % e)
+        return 2
